@@ -55,7 +55,7 @@ def run(chk):
         src = rng.choice(('cb', 'cb', 'file'))
         probe = apiseq.probe_op(rng, font)
         usefont = rng.random() < 0.4
-        pre = ['font:0:%s' % rng.choice(('12', '96.5'))] if usefont else []
+        pre = ['%s:0:%s' % (rng.choice(('font', 'font', 'hfont')), rng.choice(('12', '96.5')))] if usefont else []      # hfont: a font with an advance callback
         if usefont:
             a = probe.split(':'); a[4] = '0'; probe = ':'.join(a)
         hist = safe_history(rng, font, rng.choice((1, 3, 6, 12, 20)))
@@ -75,6 +75,22 @@ def run(chk):
         cases.append('r%d api %s %d %s - %s' % (k, font, opts, src, ' '.join(pre + ['info'] + sup + [probe] + sup + ['info'])))
         cases.append('h%d api %s %d %s - %s' % (k, font, opts, src, ' '.join(pre + ['info'] + sup + hist + [probe] + sup + ['info'])))
         meta.append((font, opts, len(hist)))
+    # hinted fonts: one gr_font with an advance callback shared by a history of the repository's own test lines (kerning, collision and
+    # attachment contexts) and a probe line; whatever the font object remembers per glyph must not depend on the slot that asked first
+    for font in ('Scheherazadegr.ttf', 'Awami_test.ttf', 'charis_r_gr.ttf', 'Padauk.ttf', 'Annapurnarc2.ttf'):
+        _, hlines, _ = S.seeds(vlib.REPO, font)
+        if len(hlines) < 4:
+            continue
+        rtl = 1 if font.startswith(('Awami', 'Schehera')) else 0
+        for k in range(40 if thorough else 6):
+            ppm = rng.choice(('12', '16', '96.5'))
+            pl = rng.choice(hlines)
+            probe = 'seg:2:32:%d:0:-:%s' % (rtl, ''.join('%08x' % c for c in pl[:40]))
+            hist = ['seg:1:32:%d:0:-:%s' % (rtl, ''.join('%08x' % c for c in rng.choice(hlines)[:40])) for _ in range(rng.choice((1, 2, 4, 8)))]
+            o, src = rng.randrange(8), rng.choice(('cb', 'file'))
+            cases.append('r%s.%d api %s %d %s - %s' % (font[:4], k, font, o, src, ' '.join(['hfont:0:' + ppm, 'info', probe, 'info'])))
+            cases.append('h%s.%d api %s %d %s - %s' % (font[:4], k, font, o, src, ' '.join(['hfont:0:' + ppm, 'info'] + hist + [probe, 'info'])))
+            meta.append((font, o, len(hist)))
     # warm-cache family: the repository's own test lines on a fresh lazily loaded face, and again after every glyph of the font has been
     # loaded by shaping private-use characters that an added cmap group maps to glyph 0, 1, 2, ... (what the face has loaded so far is
     # the one piece of state that shaping can leave behind)
